@@ -1,9 +1,132 @@
--- line-protocol handler of property C13 (stub: nothing modelled yet)
+-- line-protocol handler of property C13 (streaming byte reader): runs the ReadAdapter model of
+-- Winter/Model/Reader.lean on one history `<hex stream> <chunking> <op;op;…>` (see harness/src/bin/c13.rs)
 import Winter.Drv.Util
+import Winter.Model.Reader
 
 namespace Drv.C13
+open Model.Reader
 
-def handle (_toks : List String) : String := "-"
+/-- what the harness's `ChunkSrc` would return if it were offered an unbounded buffer: sizes are used
+    cyclically, a size 0 is an `Ok(0)` read, the list ends when the data is exhausted. The 256-byte
+    `BufReader` in front of it is `Model.Reader.capSplit 256`. -/
+def rawChunks (sizes : Array Nat) : Nat → List Nat → Nat → List (List Nat)
+  | 0, _, _ => []
+  | fuel + 1, data, idx =>
+    if data.isEmpty then []
+    else
+      let s := sizes[idx % sizes.size]!
+      if s = 0 then [] :: rawChunks sizes fuel data (idx + 1)
+      else data.take s :: rawChunks sizes fuel (data.drop s) (idx + 1)
+
+def parseChunks (spec : String) : Option (Array Nat) :=
+  let body : Option (List String) :=
+    if spec.startsWith "c" then some [(spec.drop 1).toString]
+    else if spec.startsWith "l:" then some ((spec.drop 2).toString.splitOn ",")
+    else none
+  match body with
+  | none => none
+  | some xs =>
+    match natList xs with
+    | some v => if v.isEmpty || v.all (· == 0) then none else some v.toArray
+    | none => none
+
+inductive DOp where
+  | op (o : Op)
+  | drain
+
+def arraySizes : List Nat :=
+  [0, 1, 2, 3, 4, 5, 6, 7, 8, 9, 15, 16, 17, 31, 32, 33, 64, 100, 255, 256, 257, 258, 300, 512, 513, 600]
+
+def parseElem : String → Option Elem
+  | "u8" => some .u8
+  | "u16" => some .u16
+  | "u32" => some .u32
+  | "u64" => some .u64
+  | "u128" => some .u128
+  | "us" => some .usize
+  | _ => none
+
+def parseOp (s : String) : Option DOp :=
+  match s with
+  | "u8" => some (.op .readU8)
+  | "pk" => some (.op .peekU8)
+  | "b" => some (.op .readBool)
+  | "u16" => some (.op .readU16)
+  | "u32" => some (.op .readU32)
+  | "u64" => some (.op .readU64)
+  | "u128" => some (.op .readU128)
+  | "us" => some (.op .readUsize)
+  | "h" => some (.op .hasMore)
+  | "d" => some .drain
+  | _ =>
+    let rest := (s.drop 1).toString
+    if s.startsWith "m" then
+      match rest.splitOn ":" with
+      | [ty, n] =>
+        match parseElem ty, n.toNat? with
+        | some e, some n => some (.op (.readMany e n))
+        | _, _ => none
+      | _ => none
+    else
+      match rest.toNat? with
+      | none => none
+      | some n =>
+        if s.startsWith "s" then some (.op (.readSlice n))
+        else if s.startsWith "a" then (if arraySizes.contains n then some (.op (.readArray n)) else none)
+        else if s.startsWith "v" then some (.op (.readVec n))
+        else if s.startsWith "t" then some (.op (.readString n))
+        else if s.startsWith "e" then some (.op (.checkEor n))
+        else none
+
+def natsStr (vs : List Nat) : String :=
+  if vs.isEmpty then "-" else ",".intercalate (vs.map toString)
+
+def showRes (_op : Op) : Res Val → String
+  | .eof => "eof"
+  | .invalid => "err"
+  | .panic => "panic"
+  | .ok v =>
+    match v with
+    | .nat n => toString n
+    | .bool b => if b then "true" else "false"
+    | .bytes bs => hexOf bs
+    | .nats vs => natsStr vs
+    | .unit => "ok"
+
+/-- `d`: read_u8 until the first error, at most `limit` times -/
+def drain : Nat → St → List Nat → List Nat × St
+  | 0, s, acc => (acc.reverse, s)
+  | k + 1, s, acc =>
+    match St.pop s with
+    | (.ok b, s') => drain k s' (b :: acc)
+    | (_, s') => (acc.reverse, s')
+
+/-- run the history; a panic ends it -/
+def runOps (limit : Nat) : List DOp → St → List String → List String
+  | [], _, acc => acc.reverse
+  | .drain :: ops, s, acc =>
+    let r := drain limit s []
+    runOps limit ops r.2 (hexOf r.1 :: acc)
+  | .op o :: ops, s, acc =>
+    let r := step St.reader o s
+    match r.1 with
+    | .panic => ("panic" :: acc).reverse
+    | x => runOps limit ops r.2 (showRes o x :: acc)
+
+def handle (toks : List String) : String :=
+  match toks with
+  | [h, ch, opsS] =>
+    match unhex h, parseChunks ch, (opsS.splitOn ";").mapM parseOp with
+    | some data, some sizes, some ops =>
+      let src := capSplit 256 (rawChunks sizes ((data.length + 1) * (sizes.size + 1) + 1) data 0)
+      let limit := data.length + 8
+      -- the answers of `has_remaining_capacity` are not modelled: run with "never" and with "always" and
+      -- insist that no return value depends on them
+      let a := runOps limit ops (St.new src []) []
+      let b := runOps limit ops (St.new src (List.replicate ops.length true)) []
+      if a == b then ";".intercalate a else "capacity-dependent " ++ ";".intercalate a ++ " | " ++ ";".intercalate b
+    | _, _, _ => "bad-op"
+  | _ => "bad-op"
 
 end Drv.C13
 
